@@ -86,8 +86,12 @@ CLAIMS['C01'] = dict(
          'what the map stores and re-derives (C13 cache invariant); the tail of decode_regular builds the map from the decoded parts (u10_tail); and the raw document itself (u22_encode): the as_raw_sourcemap impls of SourceMap, SourceMapIndex '
          '(recursively through nested maps, by a closure that calls the encoder on each section), SourceMapHermes and the DecodedMap dispatch put every value of the map under its key -- raw source '
          'names, root, names, file, debug id, ignore list, the reference "mappings" / "rangeMappings" strings, section offsets / urls / embedded documents, the Hermes metadata verbatim -- and leave out the keys without a value. '
-         'PARTIAL: the serde_json text layer and the decode_hermes wrapper are outside the contracts (bounded stand-in roundtrip).',
-    note=_TB + 'serde_json (de)serialisation assumed faithful.',
+         'THE PROPERTY AS A THEOREM over those two contracts (u24_roundtrip, lemma_regular_document_roundtrip): for every regular map whose token indices resolve, every document that '
+         'as_raw_sourcemap may return (raw_of_regular) and every result decode_regular may give for that document (decode_regular_post) -- the result is Ok(a map with the same tokens up to exact '
+         'consecutive duplicates, range flags included, ordered, and the same sources, names, contents, file, root, debug id and ignore list). Hermes maps: decode_hermes keeps the raw metadata that '
+         'SourceMapHermes::as_raw_sourcemap writes back verbatim, and reads the function maps from it (u16, u22). '
+         'PARTIAL: the serde_json text layer is outside the contracts (bounded stand-in roundtrip); index maps have the writer side (raw_of_index) and decode_index proved separately, not composed.',
+    note=_TB + 'serde_json (de)serialisation assumed faithful. The document-level theorem assumes that the UTF-8 bytes of an all-ASCII str are its characters\' code points.',
     design_ref='DESIGN.md 5 C01')
 CLAIMS['C02'] = dict(
     text='Unbounded proof: the mapping loop of decode_regular equals the reference reading of the format (per-line column reset, running source / line / column / name '
